@@ -50,7 +50,9 @@ func (c *Check) add(status, rule, fn, construct, pos, detail string) {
 	c.Obls = append(c.Obls, Obligation{Rule: rule, Fn: fn, Construct: construct, Pos: pos, Status: status, Detail: detail, Config: cfg})
 }
 
-func (c *Check) ok(rule, fn, construct, pos, detail string) { c.add("ok", rule, fn, construct, pos, detail) }
+func (c *Check) ok(rule, fn, construct, pos, detail string) {
+	c.add("ok", rule, fn, construct, pos, detail)
+}
 func (c *Check) fail(rule, fn, construct, pos, detail string) {
 	c.add("violated", rule, fn, construct, pos, detail)
 }
@@ -239,21 +241,21 @@ func (r *runResult) finish() int {
 			"%d proof obligations generated by %d rules over %d functions in %d build configuration(s); %d discharged, %d violated, %d undecided, %d matched a listed known finding. "+
 			"Each obligation is a structural necessary condition of property %s (DESIGN.md §4 %s); verdicts are decided on all paths of the analysed functions by dominance/post-dominance, "+
 			"ownership/lockset, table agreement and a branch-refined value-set abstract interpretation.", total, len(rules), len(fl), len(configs), len(okc), len(viol), len(undec), len(knownHits), r.ID, r.ID),
-		"obligations":         total,
-		"discharged":          len(okc),
-		"violated":            len(viol),
-		"undecided":           len(undec),
-		"known_findings_hit":  len(knownHits),
-		"evaluations":         total,
-		"distinct_nontrivial": len(distinct),
-		"rule":                "one evaluation per (rule, function, construct, build configuration); distinct = distinct (rule, function, construct) keys excluding instance-floor bookkeeping",
-		"samples":             samples,
-		"rules":               rules,
-		"functions":           fl,
+		"obligations":          total,
+		"discharged":           len(okc),
+		"violated":             len(viol),
+		"undecided":            len(undec),
+		"known_findings_hit":   len(knownHits),
+		"evaluations":          total,
+		"distinct_nontrivial":  len(distinct),
+		"rule":                 "one evaluation per (rule, function, construct, build configuration); distinct = distinct (rule, function, construct) keys excluding instance-floor bookkeeping",
+		"samples":              samples,
+		"rules":                rules,
+		"functions":            fl,
 		"build_configurations": configs,
-		"checker_cmd":         fmt.Sprintf("bin/cbgpcheck check %s --tier %s", r.ID, r.Tier),
-		"trusted_base":        []string{"go/types", "go/ssa", "library summaries (DESIGN.md §2.6)"},
-		"exhaustive":          false,
+		"checker_cmd":          fmt.Sprintf("bin/cbgpcheck check %s --tier %s", r.ID, r.Tier),
+		"trusted_base":         []string{"go/types", "go/ssa", "library summaries (DESIGN.md §2.6)"},
+		"exhaustive":           false,
 	}
 	if len(notes) > 0 {
 		cov["notes"] = dedup(notes)
